@@ -22,7 +22,8 @@ RULE = ("random Clifford circuits (plus exact rational rotations, incl. near-det
         "bits (refused); non-Clifford rotations (incl. near-deterministic small angles) only in the failing-input search against the independent "
         "density-matrix simulator; model probabilities are exact rationals, compared to 1e-9; distinct by payload; fixed families: every gate name of "
         "Qiskit's standard library on 1-4 qubits and user-defined gates under arbitrary names (independent simulator only for the names outside "
-        "the model's table), a classical bit overwritten by a second qubit followed by a reset and re-use of either qubit")
+        "the model's table), a classical bit overwritten by a second qubit followed by a reset and re-use of either qubit, several (circuit, parameter values) "
+        "pairs in one ExactSampler.run -- the same parametrised circuit object with different values, copies, other circuits in between (independent simulator only)")
 ASSUMPTIONS = ["Qiskit Statevector.evolve / probabilities and IEEE rounding are outside the model; the implementation's 1e-16 pruning tolerance is modelled as 0",
                "the concrete Clifford backend of the model (exact Gaussian-rational amplitudes) is validated against the implementation, not proved Lawful / ExSem (the refinement theorem holds for every backend whose states have expectation vectors transformed by transfer matrices)",
                "through ExactSampler: QuasiDistribution keeps integer keys"]
@@ -125,8 +126,75 @@ def _deterministic_cases():
                         yield ("simulate", {"nq": 2, "ncl": 3, "instrs": instrs, "via": "sampler" if n % 3 == 0 else "func", "always_oracle": True})
 
 
+def _sweep_cases():
+    """seed-independent: ONE ExactSampler.run() call that holds several (circuit, parameter values) pairs -- the V1 parameter-sweep
+    idiom: the same parametrised circuit object several times with different values, mixed with an unparametrised circuit, with a
+    second template, with copies, with repeated values.  Every returned distribution must be the true one of *its* pair.  The model
+    handles one circuit per line, so these go to the independent simulator only (oracle_only)."""
+    rot = lambda nm, q, k: {"name": nm, "qubits": [q], "t": "0/1", "pidx": k}          # noqa: E731
+    g = lambda nm, *qs: {"name": nm, "qubits": list(qs)}                                # noqa: E731
+    m = lambda q, c: {"name": "measure", "qubits": [q], "clbits": [c]}                  # noqa: E731
+    A = {"pvec": 2, "instrs": [rot("ry_t", 0, 0), g("cx", 0, 1), m(0, 0), g("reset", 0), rot("rx_t", 0, 1), g("barrier", 0, 1), m(0, 0), m(1, 1)]}
+    B = {"pvec": 2, "instrs": [g("h", 0), rot("rx_t", 1, 1), g("cx", 1, 0), m(1, 1), rot("ry_t", 0, 0), m(0, 0)]}
+    G = {"pvec": 1, "instrs": [rot("ry_t", 0, 0), m(0, 0), g("x", 0), g("cx", 0, 1), m(1, 1)]}
+    F = {"pvec": None, "instrs": [g("h", 0), m(0, 0)]}
+    e = lambda c, *t, **kw: dict({"c": c, "t": list(t)}, **kw)                          # noqa: E731
+    sweeps = [
+        ([A], [e(0, "0/1", "0/1"), e(0, "1/3", "1/1")]),
+        ([A], [e(0, "1/3", "1/1"), e(0, "0/1", "0/1")]),
+        ([A, F], [e(0, "0/1", "0/1"), e(1), e(0, "1/1", "1/7"), e(0, "3/1", "2/3"), e(1), e(0, "3/2", "1000/1")]),
+        ([A, B], [e(0, "1/5", "-1/2"), e(1, "1/5", "-1/2"), e(0, "2/5", "1/3"), e(1, "-2/3", "1/1")]),
+        ([A], [e(0, "1/3", "2/5"), e(0, "-1/2", "1/1", copy=True), e(0, "1/3", "2/5"), e(0, "1/1000", "1/1")]),
+        ([G], [e(0, "1/3"), e(0, "0/1"), e(0, "1/1"), e(0, "-1/2"), e(0, "1/3")]),
+        ([F], [e(0), e(0), e(0, copy=True)]),
+        ([B, G, F], [e(1, "1/1"), e(0, "1/2", "1/4"), e(2), e(1, "1/40000"), e(0, "0/1", "1/1"), e(1, "1/1")]),
+    ]
+    for circs, sweep in sweeps:
+        yield ("sweep", {"nq": 2, "ncl": 2, "instrs": circs[0]["instrs"], "circs": circs, "sweep": sweep, "via": "sampler",
+                         "oracle_only": True, "always_oracle": True})
+
+
+def _angle(t):
+    import math
+    t = Fraction(t)
+    return 2 * math.atan2(float(2 * t / (1 + t * t)), float((1 - t * t) / (1 + t * t)))
+
+
+def _run_sweep(payload):
+    from qiskit_addon_cutting.utils.simulation import ExactSampler
+    objs = [_circ(dict(payload, pvec=c.get("pvec"), instrs=c["instrs"])) for c in payload["circs"]]
+    circuits = [objs[en["c"]].copy() if en.get("copy") else objs[en["c"]] for en in payload["sweep"]]
+    values = [[_angle(t) for t in en["t"]] for en in payload["sweep"]]
+    dists = ExactSampler().run(circuits, values).result().quasi_dists
+    return {"ok": [sorted((int(k), float(v)) for k, v in d.items()) for d in dists]}
+
+
+def _oracle_sweep(payload):
+    from ..oracles import sem
+    real = call_real(_run_sweep, payload)
+    if "error" in real:
+        return f"sampler raised {real['error']} on a run of {len(payload['sweep'])} (circuit, parameter values) pairs"
+    if len(real["ok"]) != len(payload["sweep"]):
+        return f"{len(payload['sweep'])} (circuit, parameter values) pairs submitted, {len(real['ok'])} distributions returned"
+    for pos, (en, dist) in enumerate(zip(payload["sweep"], real["ok"])):
+        c = payload["circs"][en["c"]]
+        # reference: the circuit written out with the numeric angles of this entry
+        bound = [dict(i, t=en["t"][i["pidx"]]) if i.get("pidx") is not None else i for i in c["instrs"]]
+        br = sem.simulate(_circ(dict(payload, pvec=None, instrs=bound)))
+        exp = {int(k): float(np.real(np.trace(r))) for k, r in br.items() if abs(np.trace(r)) > 1e-13}
+        got = {k: v for k, v in dist if abs(v) > 1e-13}
+        where = f"entry {pos} of one ExactSampler.run (circuit #{en['c']}{' (copy)' if en.get('copy') else ''}, parameter t-values {en['t']})"
+        if abs(sum(v for _, v in dist) - 1) > 1e-9:
+            return f"{where}: probabilities sum to {sum(v for _, v in dist)}"
+        for k in sorted(set(exp) | set(got)):
+            if abs(exp.get(k, 0) - got.get(k, 0)) > 1e-9:
+                return f"{where}: outcome {k}: true probability {exp.get(k, 0)}, sampler {got.get(k, 0)}"
+    return None
+
+
 def cases(rng, tier):
     yield from _deterministic_cases()
+    yield from _sweep_cases()
     N = 250 if tier == "quick" else 4000
     # two branches that reach the same classical outcome with states of equal magnitudes but different relative phase (reset of an
     # entangled qubit, or an overwritten classical bit), followed by a phase-sensitive gate and measurement
@@ -281,6 +349,8 @@ def model_line(kind, payload):
 
 def run_real(kind, payload):
     from qiskit_addon_cutting.utils.simulation import simulate_statevector_outcomes, ExactSampler
+    if payload.get("sweep"):
+        return _run_sweep(payload)
     qc = _circ(payload)
     if payload.get("before"):
         ExactSampler().run([_circ(payload, "before")]).result()
@@ -333,7 +403,8 @@ def compare(kind, payload, real, model):
 
 def describe(kind, payload):
     names = [i["name"] for i in payload["instrs"]]
-    return {"nq": payload["nq"], "ncl": payload["ncl"], "measures": names.count("measure"), "resets": names.count("reset"), "via": payload.get("via")}
+    return {"nq": payload["nq"], "ncl": payload["ncl"], "measures": names.count("measure"), "resets": names.count("reset"), "via": payload.get("via"),
+            "pairs_in_one_run": len(payload["sweep"]) if payload.get("sweep") else 1}
 
 
 def nontrivial_key(kind, payload):
@@ -344,6 +415,8 @@ def nontrivial_key(kind, payload):
 
 def oracle(kind, payload):
     from ..oracles import sem
+    if payload.get("sweep"):
+        return _oracle_sweep(payload)
     refused = any(i.get("cond") or (i["name"] not in ("measure",) and i.get("clbits")) for i in payload["instrs"])
     flat = dict(payload, instrs=_flat(payload["instrs"]), pvec=None)   # the reference circuit carries the bound angles
     real = call_real(lambda p: run_real(kind, p), payload)
